@@ -232,10 +232,21 @@ def degenerate_scenes(rng, n):
         else:
             s1, half = ("Ellipsoid", A.copy(), np.array([r, 0.6 * r, h])), h
         rs = rng.choice([0.3, 1.0])
-        for gap in (0.5, 1e-3, 0.0, -0.2):
+        for gap in ((0.5, 0.0) if _k % 2 else (1e-3, -0.2)):
             centre_other = c + ax * (half + rs + gap)
             out.append(("face-on-tilted", s1, ("Sphere", centre_other, rs), False))
             out.append(("face-on-tilted", ("Sphere", centre_other, rs), s1, False))
+    # meshes whose vertex array carries a point no triangle references (index 0, inside the cube near a corner and outside
+    # the hull of the six axis-extreme vertices), approached from that corner: the very first support query must cope
+    from scipy.spatial import ConvexHull
+    cube = np.array([[x, y, z] for x in (-1, 1) for y in (-1, 1) for z in (-1, 1)], dtype=float)
+    ctri = np.asarray(ConvexHull(cube).simplices, dtype=int) + 1
+    for kk in range(8):
+        verts = np.ascontiguousarray(np.vstack((0.9 * cube[kk], cube)) * 0.5)
+        mesh = ("MeshGraph", I.copy(), verts, ctri.copy())
+        other = ("Sphere", cube[kk] * rng.choice([0.8, 1.2, 2.0]), 0.4)
+        out.append(("mesh-unreferenced-vertex", mesh, other, False))
+        out.append(("mesh-unreferenced-vertex", other, mesh, False))
     # parallel axial shapes on a lattice (exact ties of the sub-simplex selection)
     for _k in range(24):
         def lat_pose():
@@ -337,6 +348,10 @@ def run_scene(ctx, label, s1, s2, same):
         if ctx.extra.get("hangs", 0) >= 3:
             ctx.notes.append("3 hangs seen: remaining calls of this run skipped")
             return
+        # every entry point gets freshly constructed colliders (a cached hill-climbing start vertex left behind by an
+        # earlier query would hide what the FIRST query of a new object does)
+        c1 = scenes.build(s1)
+        c2 = c1 if same else scenes.build(s2)
         status, res, n = guarded(fn, c1, c2)
         if status == "hang":
             ctx.extra["hangs"] = ctx.extra.get("hangs", 0) + 1
